@@ -740,6 +740,18 @@ EXTRA_REQUESTS = {
                      cm={"cat": "TEXTTABLE", "scales": [{"lo": 255, "hi": 255, "const": "end"},
                                                         {"lo": 128, "hi": 254, "const": "more"}]}),
         end_value=255, structure=dict(params=[V("x", U8)])))]},
+    # coded constants that are not numbers (a byte field, a string) behind a value: a PDU with
+    # other bytes there is a mismatch (warning in odxtools), never a foreign exception
+    "const-bytefield": {"params": [SID, V("a", U8), dict(kind="const", name="magic",
+                                                         type={"dt": "A_BYTEFIELD", "bl": 16},
+                                                         value="beef"), TAIL]},
+    # a VALUE parameter whose PHYSICAL-DEFAULT-VALUE is present but *empty* (a byte field of
+    # length 0): it has a default, so it is not required and can be omitted
+    "default-empty-bytes": {"params": [SID, V("d", dict(dt="A_BYTEFIELD", dct="leading", bl=8),
+                                               default=""), V("b", U8), TAIL]},
+    "const-string": {"params": [SID, V("a", U8), dict(kind="const", name="magic",
+                                                      type={"dt": "A_ASCIISTRING", "bl": 16},
+                                                      value="OK"), TAIL]},
 }
 
 
@@ -1090,7 +1102,7 @@ def configs_for(prop, tier, seed):
                 out.append({"id": f"composite/response/{name}/{sid}", "harness": "composite",
                             "what": "response", "name": name, "shape": sh, "prop": prop,
                             "build": {"what": "response", "name": name}})
-        for name, spec in COMPOSITES.items():
+        for name, spec in {**COMPOSITES, "default-empty-bytes": EXTRA_REQUESTS["default-empty-bytes"]}.items():
             sh = shapes(spec)[-1]
             for p in spec["params"]:
                 if p["kind"] in ("value", "lengthkey", "tablestruct", "system"):
